@@ -4,7 +4,7 @@
    Every step is checked on its own: the model is run from the OBSERVED world before the
    step and must reproduce the observed result, log and world after it. *)
 From LC Require Import Lib.Bytes Lib.Lex Lib.Fields Lib.PathM Gen.Consts
-  Model.MountInfo Model.FsTree Model.Kernel Model.Layers Cases.Verdict.
+  Model.MountInfo Model.FsTree Model.Kernel Model.Layers Model.Args Model.Dispatch Cases.Verdict.
 Open Scope N_scope.
 
 Module LC.
@@ -26,7 +26,10 @@ Record step := MkStep {
   s_env : env; s_cmd : command; s_users : users_map;
   s_res : rclass; s_oplog : list op; s_delta : delta;
   s_ktab : list kline; s_nextid : N; s_nextdev : N;
-  s_layers : option (list lobs) }.
+  s_layers : option (list lobs);
+  (* the command line, when the step was executed by the real binary cmd/layercake (process-level
+     step); [] when it was executed by calls into package manage or by hand *)
+  s_argv : list bytes }.
 
 Record case := MkCase { c_cfg : cfgT; c_fs0 : fsT; c_ks0 : kstate; c_steps : list step }.
 
@@ -81,10 +84,15 @@ Definition model_step (c : cfgT) (w : wobs) (s : step) : sres :=
 Definition kstate_beq (a b : kstate) : bool :=
   ktab_beq (ks_tab a) (ks_tab b) && (ks_nextid a =? ks_nextid b) && (ks_nextdev a =? ks_nextdev b).
 
+Definition argv_ok (s : step) : bool :=
+  match s_argv s with [] => true | argv => dispatch_is argv (s_env s) (s_cmd s) end.
+
 Definition step_corr (c : cfgT) (w : wobs) (s : step) : bool :=
   let r := model_step c w s in
   let w' := after w s in
-  rclass_beq (r_class r) (s_res s)
+  (* a process-level step is the step the command-line model says it is (Model/Dispatch.v) *)
+  argv_ok s
+  && (rclass_beq (r_class r) (s_res s)
   && list_beq op_beq (r_log r) (s_oplog s)
   && fs_beq (r_fs r) (wo_fs w')
   && kstate_beq (r_ks r) (wo_ks w')
@@ -95,13 +103,14 @@ Definition step_corr (c : cfgT) (w : wobs) (s : step) : bool :=
           the real binary, whose probed layer table cannot be seen from outside the process *)
        true
      | _, _ => true
-     end.
+     end).
 
 (* diagnostics: per step, which components agree (bit0 class, 1 log, 2 fs, 3 kernel, 4 layers) *)
 Definition step_diag (c : cfgT) (w : wobs) (s : step) : N :=
   let r := model_step c w s in
   let w' := after w s in
-  (if rclass_beq (r_class r) (s_res s) then 1 else 0)
+  (if rclass_beq (r_class r) (s_res s)
+        && argv_ok s then 1 else 0)
   + (if list_beq op_beq (r_log r) (s_oplog s) then 2 else 0)
   + (if fs_beq (r_fs r) (wo_fs w') then 4 else 0)
   + (if kstate_beq (r_ks r) (wo_ks w') then 8 else 0)
